@@ -215,42 +215,44 @@ func HbflReload(bidInCache ptttype.BidInStore) {
 	if err != nil {
 		return
 	}
-	file, err := os.Open(filename)
-	if err != nil {
-		return
-	}
-	defer file.Close()
-
 	hbfl := [ptttype.MAX_FRIEND + 1]ptttype.UID{}
-	reader := bufio.NewReader(file)
-	var line []byte
-	var uid ptttype.UID
-	// num++ is in the end of the for.
-	for num := ptttype.UID(1); num <= ptttype.MAX_FRIEND; {
-		line, _ = types.ReadLine(reader)
-		if len(line) == 0 {
-			break
+
+	// a board without the list file has no friends (as hbflreload in cache.c):
+	// the list in shm is still replaced and stamped.
+	file, err := os.Open(filename)
+	if err == nil {
+		defer file.Close()
+
+		reader := bufio.NewReader(file)
+		var line []byte
+		var uid ptttype.UID
+		// num++ is in the end of the for.
+		for num := ptttype.UID(1); num <= ptttype.MAX_FRIEND; {
+			line, _ = types.ReadLine(reader)
+			if len(line) == 0 {
+				break
+			}
+			theList := bytes.Split(line, []byte{' '}) // The \x00 is taken care of by scanner.
+
+			eachUserID := &ptttype.UserID_t{}
+			copy(eachUserID[:], theList[0][:])
+
+			if types.Cstrcasecmp(eachUserID[:], ptttype.USER_ID_GUEST[:]) == 0 {
+				continue
+			}
+
+			uid, err = SearchUserRaw(eachUserID, nil)
+			if err != nil {
+				continue
+			}
+			if uid == 0 {
+				continue
+			}
+
+			hbfl[num] = uid
+
+			num++ // num++ is in the end of the for. (no num++ for the continue conditions)
 		}
-		theList := bytes.Split(line, []byte{' '}) // The \x00 is taken care of by scanner.
-
-		eachUserID := &ptttype.UserID_t{}
-		copy(eachUserID[:], theList[0][:])
-
-		if types.Cstrcasecmp(eachUserID[:], ptttype.USER_ID_GUEST[:]) == 0 {
-			continue
-		}
-
-		uid, err = SearchUserRaw(eachUserID, nil)
-		if err != nil {
-			continue
-		}
-		if uid == 0 {
-			continue
-		}
-
-		hbfl[num] = uid
-
-		num++ // num++ is in the end of the for. (no num++ for the continue conditions)
 	}
 
 	hbfl[0] = ptttype.UID(types.NowTS())
